@@ -1030,7 +1030,10 @@ def pipe_model_input(kind, per_recipient, procs):
 OUTPUTS = [b'', b'transient failure\n', b'5.1.1 no such user\n', b'5.1.1', b'5.1.1\n', b'5.x.1 nope', b'  \n\t',
            b'maildrop: 5.0.0 over quota\n', b'maildrop: \n', b'\xff\xfe bad utf-8\n', b'5.\xd9\xa1.\xd9\xa2 arabic-indic digits\n',
            b'5.1.1\xc2\xa0nbsp', b'5.1.1\xe2\x80', b'4.2.2 mailbox full\n', b'5.7.1 \xe2\x82\xac denied', b' 5.1.1 leading space',
-           b'5.12.345 x', b'5..1 x', b'50.1.1 x', b'5.1.1\x1f', b'5.1.1\x1c']
+           b'5.12.345 x', b'5..1 x', b'50.1.1 x', b'5.1.1\x1f', b'5.1.1\x1c',
+           # text that looks like a format string: nothing may ever format the program's output
+           b'%', b'%%', b'%s', b'%d', b'Quota 100% full\n', b'%(name)s', b'{0}', b'{}', b'{sender}', b'\\', b'5.2.2 disk 97% full {x} \\n\n']
+FORMAT_LIKE = (b'%', b'{', b'\\')
 STATUSES = [0, 1, 75, 127, -9]
 
 
@@ -1049,7 +1052,9 @@ def oracle_pipe(ctx, case, res):
         key = what = None
         if f.startswith('other') or f == 'none':
             key = 'c11:pipe-foreign-exception'
-            if kind in ('maildrop', 'dovecot'):
+            if any(q[0] == 'exit' and any(ch in q[2] + q[3] for ch in FORMAT_LIKE) for q in procs):
+                key = 'c11:pipe-output-used-as-format-string'
+            elif kind in ('maildrop', 'dovecot'):
                 key = 'c11:pipe-bytes-str-typeerror'
             elif any(q[0] == 'exit' and (b'\xff' in q[2] + q[3] or q[2].endswith(b'\xe2\x80') or q[3].endswith(b'\xe2\x80')) for q in procs):
                 key = 'c11:pipe-undecodable-output'
@@ -1507,6 +1512,8 @@ def run(ctx):
         'pipe: real sh child processes, exit status {0,1,75,127,SIGKILL} x 21 output shapes on stdout/stderr x three relay classes x both per_recipient modes, timeouts. '
         'reply texts with an enhanced status code matching / contradicting the reply code at every stage (SMTP, LMTP per-recipient, HTTP header); '
         'MX as an object: every 2-attempt sequence over {2 domains} x {dt 0,10,100 s; ttl 60} x 10 resolver scenarios on one MxSmtpRelay, random 3- and 4-attempt sequences; '
+'concurrent MX: 2 simultaneous attempts (same / different domain) x 7x7 own resolver scenarios x every release order of their MX/A queries (AsyncResults released by the harness), random 3-attempt runs; '
+        'pipe outputs include format-string look-alikes (%, %%, %s, %d, %(name)s, {0}, {}, {sender}, backslash); '
         'HTTP: stub connection, 13 status codes x 20 X-Smtp-Reply shapes + refused/silent/garbage/closed. MX: stub resolver, 9 MX answers x 6 A answers x 8 recipient shapes x forced x attempts. '
         'non-trivial = at least one non-default outcome, several recipients, or a failing downstream')
     cases = run_smtp(ctx)
@@ -1515,6 +1522,7 @@ def run(ctx):
     run_https(ctx)
     run_mxs(ctx)
     run_mx_sequences(ctx)
+    run_mx_concurrents(ctx)
     ctx.extra['exhaustive'] = True
     ctx.extra['exhaustive_bound'] = ('SMTP/LMTP: the enumerated fault combinations above (%d scripts, all compared on result per recipient and on the command sequence seen by the server); '
                                      'pipe/HTTP/MX: the full products listed in the rule') % len(cases)
@@ -1568,6 +1576,13 @@ def replay(ctx, case):
         print('implementation:', run_http(d))
         if ctx.model:
             print('model         :', decode_mres(ctx.model.call('c11_http', http_model_input(d))))
+    elif kind == 'mxconc':
+        att = [tuple(x) for x in c['attempts']]
+        out, order = run_mx_concurrent(att, c['choices'])
+        print('attempts (domain, own resolver scenario):', att)
+        print('release order (attempt, query):', order)
+        for k, (res, answers) in enumerate(out):
+            print('attempt %d: %r  answers given: %r' % (k, res, answers))
     elif kind == 'mxseq':
         steps = [tuple(x) for x in c['steps']]
         print('steps (domain, dt, resolver scenario):', steps)
@@ -1744,3 +1759,150 @@ def run_mx_sequences(ctx):
             ctx.mismatch('mxseq', dict(steps=[list(x) for x in steps]), impl, mod)
         oracle_mxseq(ctx, steps, impl)
     ctx.sample(dict(kind='mxseq', steps=[list(x) for x in seqs[len(seqs) // 2]]))
+
+
+# ----------------------------------------------------------------- MX relay: concurrent attempts on one object
+CONC_SCEN = {            # (MX answer, A answer) an attempt's own queries get
+    'mx-ok': (('ok', [(10, 1), (5, 2)]), ('ok', 1)),
+    'mx-fail': (('fail', ARES_ESERVFAIL), ('ok', 1)),
+    'mx-timeout': (('fail', ARES_ETIMEOUT), ('ok', 1)),
+    'nf-a-ok': (('notfound', ARES_ENOTFOUND), ('ok', 1)),
+    'nodata-a-ok': (('notfound', ARES_ENODATA), ('ok', 1)),
+    'nf-a-fail': (('notfound', ARES_ENOTFOUND), ('fail', ARES_ESERVFAIL)),
+    'nf-nf': (('notfound', ARES_ENOTFOUND), ('notfound', ARES_ENODATA)),
+}
+CONC_NAMES = sorted(CONC_SCEN)
+
+
+def run_mx_concurrent(attempts, choices):
+    """attempts: [(domain index, scenario)] started together on ONE MxSmtpRelay; the stub resolver
+    answers through AsyncResults that are released one at a time, the next one picked by `choices`.
+    Returns per attempt (result, [(qtype, answer kind) it was given]) and the release order."""
+    pending = []          # [attempt index, qtype, AsyncResult]
+    issued = [[] for _ in attempts]
+    owner = {}
+
+    class ConcResolver(object):
+        @classmethod
+        def query(cls, name, qtype):
+            a = owner.get(gevent.getcurrent())
+            r = AsyncResult()
+            pending.append([a, qtype, r])
+            return r
+    saved = (mx_mod.DNSResolver, mx_mod.time)
+    mx_mod.DNSResolver, mx_mod.time = ConcResolver, FakeClock(1000)
+    results = [None] * len(attempts)
+    order = []
+    try:
+        relay = MxSmtpRelay(context=FakeContext())
+        relay.new_static_relay = lambda dest, port: StubStatic(dest, port)
+
+        def one(k, d):
+            env = Envelope('s@example.com', ['user@d%d.example' % d])
+            env.parse(b'From: s@example.com\r\n\r\ntest\r\n')
+            try:
+                v = relay.attempt(env, k)
+                results[k] = ('relay', v[1]) if isinstance(v, tuple) and v[0] == 'relayed-to' else ('all', classify_value(v))
+            except Exception as e:
+                results[k] = ('exc', classify_exc(e))
+        glets = []
+        for k, (d, scen) in enumerate(attempts):
+            g = gevent.Greenlet(one, k, d)
+            owner[g] = k
+            glets.append(g)
+        for g in glets:
+            g.start()
+        step = 0
+        for _ in range(40):
+            for _ in range(6):
+                gevent.sleep(0)
+            if not pending:
+                break
+            pick = choices[step] % len(pending) if step < len(choices) else 0
+            step += 1
+            a, qtype, r = pending.pop(pick)
+            spec = CONC_SCEN[attempts[a][1]][0 if qtype == 'MX' else 1] if a is not None else ('fail', ARES_ESERVFAIL)
+            order.append((a, qtype))
+            if a is not None:
+                issued[a].append((qtype, spec[0], spec[1] if spec[0] == 'ok' else None))
+            if spec[0] == 'ok':
+                r.set([RData(p, 'mx%d.example' % h, MX_TTL) for p, h in spec[1]] if qtype == 'MX'
+                      else [RData(ttl=MX_TTL) for _ in range(spec[1])])
+            else:
+                r.set_exception(DNSError(spec[1]))
+        for g in glets:
+            if not g.ready():
+                g.kill(block=False)
+        gevent.sleep(0)
+    finally:
+        mx_mod.DNSResolver, mx_mod.time = saved
+    return [(results[k] or ('none',), issued[k]) for k in range(len(attempts))], order
+
+
+def lookup_outcome(answers, d, k):
+    """what a completed lookup (the answers it was given) calls for"""
+    mxa = next((x for x in answers if x[0] == 'MX'), None)
+    aa = next((x for x in answers if x[0] == 'A'), None)
+    if mxa is None:
+        return None
+    if mxa[1] == 'fail' or (mxa[1] == 'notfound' and aa is not None and aa[1] == 'fail'):
+        return ('exc', 'trans')
+    if mxa[1] == 'ok':
+        hosts = ['mx%d.example' % h for p, h in sorted(mxa[2], key=lambda r: r[0])]
+    elif aa is not None and aa[1] == 'ok':
+        hosts = ['d%d.example' % d] * aa[2]
+    elif aa is None:
+        return None
+    else:
+        hosts = []
+    return ('relay', hosts[k % len(hosts)]) if hosts else ('exc', 'perm')
+
+
+def oracle_mxconc(ctx, attempts, choices, out):
+    case = dict(kind='mxconc', attempts=[list(x) for x in attempts], choices=list(choices))
+    for k, ((d, scen), (res, answers)) in enumerate(zip(attempts, out)):
+        if res == ('none',):
+            _fail(ctx, 'c11:mx-concurrent-no-result', case, 'attempt %d (domain %d, %s) never finished' % (k, d, scen))
+            return
+        if answers:
+            want = lookup_outcome(answers, d, k)
+            if want is not None and res != want:
+                key = 'c11:mx-concurrent-resolver-error-not-transient' if want == ('exc', 'trans') else 'c11:mx-concurrent-misclassified'
+                _fail(ctx, key, case, 'attempt %d (domain %d) was answered %r: expected %r, got %r' % (k, d, answers, want, res))
+                return
+        else:
+            # it asked nothing itself: it shared somebody's lookup for the same domain and must get that lookup's outcome
+            shared = [lookup_outcome(a2, d2, k) for (d2, s2), (r2, a2) in zip(attempts, out) if d2 == d and a2]
+            if res not in shared:
+                key = 'c11:mx-concurrent-misclassified'
+                if res == ('exc', 'perm') and ('exc', 'trans') in shared:
+                    key = 'c11:mx-concurrent-resolver-error-not-transient'
+                _fail(ctx, key, case, 'attempt %d (domain %d) asked the resolver nothing and is reported %r; the lookups for that domain it can have shared call for %r' % (
+                    k, d, res, shared))
+                return
+
+
+def run_mx_concurrents(ctx):
+    cases = []
+    for s0 in CONC_NAMES:
+        for s1 in CONC_NAMES:
+            for doms in ((0, 0), (0, 1)):
+                seen = set()
+                for ch in itertools.product((0, 1), repeat=4):
+                    att = [(doms[0], s0), (doms[1], s1)]
+                    out, order = run_mx_concurrent(att, ch)
+                    if tuple(order) in seen:
+                        continue
+                    seen.add(tuple(order))
+                    cases.append((att, ch, out))
+    rng = ctx.rng
+    for _ in range(150 if ctx.quick else 2000):
+        att = [(rng.choice((0, 0, 1)), rng.choice(CONC_NAMES)) for _ in range(3)]
+        ch = tuple(rng.randrange(3) for _ in range(6))
+        cases.append((att, ch, run_mx_concurrent(att, ch)[0]))
+    for att, ch, out in cases:
+        ctx.evaluated(('mxconc', repr(att), ch))
+        ctx.count('mxconc:%d-attempts' % len(att))
+        oracle_mxconc(ctx, att, ch, out)
+    ctx.sample(dict(kind='mxconc', attempts=[list(x) for x in cases[len(cases) // 3][0]], choices=list(cases[len(cases) // 3][1])))
+    ctx.note('concurrent MX attempts are judged by the implementation-only oracle (each attempt classified by the answers it, or the lookup it shared, was given); the Coq MX model is sequential (one attempt at a time)')
